@@ -19,7 +19,16 @@ RULE = ("seeded data sets (distinct x, more points than parameters; sigma_y none
         "30 % of the problems rescaled to other units, x and y independently by 1e-12..1e12; OFFSET "
         "abscissae |x|/span = 1e2..1e5 (position as a fit parameter up to 6e3, as a constant of the "
         "user model up to 1e5) with x-uncertainties and noisy y; closed-form fits called with "
-        "parguess (list / tuple, with and without x-uncertainties); data "
+        "parguess (list / tuple, with and without x-uncertainties); ARGUMENT TYPES: problems in whole "
+        "numbers / quarters with every number (data, uncertainties, range bounds, degree, guess) as "
+        "int, float, numpy float64 / float32 / int64 / int32, element of an integer array, Fraction, "
+        "lists of each and arrays of each dtype, and the uncertainties through every route "
+        "(keyword, MeasurementArray constructor, keyword on existing arrays with or without old "
+        "uncertainties, the error setter element by element, relative uncertainties); y (and x) "
+        "points recorded as REPEATED MEASUREMENTS (uncertainty = error on the mean / standard "
+        "deviation / propagated error of the error-weighted mean, as chosen on the point); "
+        "generating parameters and guess on a mirrored or negative branch (Gaussian width < 0, "
+        "sine (-a, -b), negative amplitudes and rates); data "
         "passed as lists, arrays, MeasurementArrays, XYDataSet (keywords or arrays carrying the "
         "uncertainties), XYDataSet.fit, keywords, enum model, y as DerivedValues, Plot.fit) fitted by "
         "the real library; the returned parameters/covariance are certified by the Lean driver "
@@ -78,6 +87,12 @@ def gen_cases(ctx, n):
         t = ctx.rng.random()
         if t < 0.08:
             cases.append(offset_case(ctx.rng, units=u))
+        elif t < 0.20:
+            cases.append(G.gen_typed(ctx.rng))
+        elif t < 0.25:
+            cases.append(G.gen_repeated(ctx.rng, want_range=None))
+        elif t < 0.30:
+            cases.append(G.gen_signed(ctx.rng, units=u))
         else:
             cases.append(G.gen_case(ctx.rng, units=u))
     return cases
@@ -126,6 +141,83 @@ def targeted(ctx):
             c["guess_kind"] = ("list", "tuple")[(k // 2) % 2]
             out.append(c)
             k += 1
+    out += typed_cases(rng) + repeated_cases(rng) + signed_cases(rng)
+    return out
+
+
+def typed_cases(rng, want_range=None):
+    """(3) ARGUMENT TYPES: every number of the request in every numeric type that represents it
+    exactly, the uncertainties through every route that writes them (fitgen TYPE NOTES)"""
+    out = []
+    routes = [r for r in G.ERR_ROUTES if r != "kw"]
+    per_point = ("list:int", "array:int64", "list:Fraction", "array:int32", "list:np.int64",
+                 "array:float32", "list:np.float32", "list:arange-elem", "list:float",
+                 "array:float64", "list:np.int32")
+    polys = (("linear", None), ("quadratic", None), ("polynomial", 3), ("polynomial", 1),
+             ("polynomial", 4), ("polynomial", 2))
+    k = 0
+    # per-point y-uncertainties of every type through every route, closed-form fits
+    for route in routes:
+        for rep in range(3):
+            fam, d = polys[k % len(polys)]
+            force = {"container": ("marrays", "xyds.marrays")[k % 2], "yerr_route": route,
+                     "yerr": per_point[k % len(per_point)]}
+            wr = want_range
+            if route == "setter-late" and rep < 2:
+                # the data set object is fitted once, its uncertainties are rewritten, it is fitted
+                # again (with and without an x-range)
+                force.update({"container": "xyds.marrays", "refit": True})
+                wr = want_range if want_range is not None else bool(rep)
+            out.append(G.gen_typed(rng, family=fam, degree=d, grid=1.0, sy="point", want_range=wr,
+                                   force=force))
+            k += 1
+    # a common y-uncertainty of every scalar type, through the routes / by keyword
+    for k2, t in enumerate(G.SCALAR_TYPES):
+        fam, d = polys[k2 % len(polys)]
+        out.append(G.gen_typed(rng, family=fam, degree=d, grid=1.0, sy="common", want_range=want_range,
+                               force={"container": ("marrays", "lists", "xyds.marrays", "xyds", "plot")[k2 % 5],
+                                      "yerr_route": routes[k2 % 5], "yerr": t}))
+    # the other models (x-uncertainties too), plain containers, quarter grid
+    nl = ("exponential", "gaussian", "custom:sine", "custom:growth", "custom:lorentz")
+    for k3, fam in enumerate(nl):
+        out.append(G.gen_typed(rng, family=fam, grid=1.0, sy="point", want_range=want_range,
+                               force={"container": ("marrays", "xyds.marrays")[k3 % 2],
+                                      "yerr_route": routes[k3 % len(routes)],
+                                      "xerr_route": routes[(k3 + 2) % 5],
+                                      "yerr": per_point[k3], "xerr": per_point[(k3 + 1) % 4]}))
+        out.append(G.gen_typed(rng, family=fam, want_range=want_range,
+                               force={"container": ("lists", "xyds", "plot")[k3 % 3]}))
+    for k4 in range(4):
+        fam, d = polys[k4]
+        out.append(G.gen_typed(rng, family=fam, degree=d, grid=0.25, want_range=want_range))
+    return out
+
+
+def repeated_cases(rng, **kw):
+    """(4) y (and x) points recorded as REPEATED MEASUREMENTS: sigma_y is what the point reports
+    (error on the mean by default), never the scatter of its readings"""
+    out = []
+    hows = ("fit(x, yarr)", "fit(xarr, yarr)", "XYDataSet(x, yarr)", "XYDataSet(xarr, yarr).fit",
+            "plot(x, yarr).fit")
+    fams = ("linear", "quadratic", "polynomial", "exponential", "gaussian", "custom:sine",
+            "custom:growth", "custom:lorentz")
+    kinds = ("mean-error", "std", "std-and-back", "weighted")
+    for k, fam in enumerate(fams):
+        out.append(G.gen_repeated(rng, family=fam, kind=kinds[k % 4], form=hows[k % 5], **kw))
+        out.append(G.gen_repeated(rng, family=fam, kind="mean-error", form=hows[(k + 2) % 5],
+                                  xrep=True, sx="point", **kw))
+    return out
+
+
+def signed_cases(rng, **kw):
+    """(5) THE OTHER BRANCH: generating parameters and guess on a mirrored / negative branch
+    (Gaussian with a negative width, (a, b) -> (-a, -b) of a sine, negative amplitudes)"""
+    out = []
+    for fam in sorted(G.SIGN_VARIANTS):
+        for v in G.SIGN_VARIANTS[fam]:
+            out.append(G.gen_signed(rng, family=fam, variant=v, **kw))
+    out.append(G.gen_signed(rng, family="gaussian", variant="neg-std", noise_free=True, **kw))
+    out.append(G.gen_signed(rng, family="gaussian", variant="neg-std", sx="point", noise_free=False, **kw))
     return out
 
 
